@@ -14,27 +14,53 @@ Definition aff_id : aff3 := [k1; k0; k0; k0; k1; k0].
 Definition translate (x y : f32) : aff3 := [k1; k0; x; k0; k1; y].
 Definition scale2 (sx sy : f32) : aff3 := [sx; k0; k0; k0; sy; k0].
 
-Definition at_ (a : aff3) (i : nat) : f32 := nth i a 0.
+(* numeric operations the affine helpers and the gradient-geometry helpers are written over:
+   float32 instance G32 (compared with generate.go), R instance in proofs/GradGeomR.v / proofs/PathR.v *)
+Record genops (T : Type) := mkGenOps {
+  o_add : T -> T -> T; o_sub : T -> T -> T; o_mul : T -> T -> T; o_div : T -> T -> T; o_neg : T -> T;
+  o_zero : T; o_one : T;
+  o_invsqrt : T -> T        (* float32(1 / math.Sqrt(float64(x))) *)
+}.
+Arguments o_add {T}. Arguments o_sub {T}. Arguments o_mul {T}. Arguments o_div {T}. Arguments o_neg {T}.
+Arguments o_zero {T}. Arguments o_one {T}. Arguments o_invsqrt {T}.
 
-Definition concat2 (a b : aff3) : aff3 :=
-  [ a32 (m32 (at_ a 0) (at_ b 0)) (m32 (at_ a 3) (at_ b 1));
-    a32 (m32 (at_ a 1) (at_ b 0)) (m32 (at_ a 4) (at_ b 1));
-    a32 (a32 (m32 (at_ a 2) (at_ b 0)) (m32 (at_ a 5) (at_ b 1))) (at_ b 2);
-    a32 (m32 (at_ a 0) (at_ b 3)) (m32 (at_ a 3) (at_ b 4));
-    a32 (m32 (at_ a 1) (at_ b 3)) (m32 (at_ a 4) (at_ b 4));
-    a32 (a32 (m32 (at_ a 2) (at_ b 3)) (m32 (at_ a 5) (at_ b 4))) (at_ b 5) ].
+Definition neg32 := fneg F32.
+Definition G32 : genops f32 :=
+  mkGenOps f32 a32 s32 m32 d32 neg32 k0 k1
+           (fun r2 => f64_to_f32 (fdiv F64 (of_Z F64 1) (fsqrt F64 (f32_to_f64 r2)))).
+
+Section Affine.
+Context {T : Type} (O : genops T).
+Definition at_gen (a : list T) (i : nat) : T := nth i a (o_zero O).
+Definition concat2_gen (a b : list T) : list T :=
+  let add := o_add O in let mul := o_mul O in let at_ := at_gen in
+  [ add (mul (at_ a 0) (at_ b 0)) (mul (at_ a 3) (at_ b 1));
+    add (mul (at_ a 1) (at_ b 0)) (mul (at_ a 4) (at_ b 1));
+    add (add (mul (at_ a 2) (at_ b 0)) (mul (at_ a 5) (at_ b 1))) (at_ b 2);
+    add (mul (at_ a 0) (at_ b 3)) (mul (at_ a 3) (at_ b 4));
+    add (mul (at_ a 1) (at_ b 3)) (mul (at_ a 4) (at_ b 4));
+    add (add (mul (at_ a 2) (at_ b 3)) (mul (at_ a 5) (at_ b 4))) (at_ b 5) ]%nat.
+
+Definition aff_id_gen : list T := [o_one O; o_zero O; o_zero O; o_zero O; o_one O; o_zero O].
 
 (* Concat(affs...) : one argument is returned as is *)
-Definition concat (l : list aff3) : aff3 :=
+Definition concat_gen (l : list (list T)) : list T :=
   match l with
-  | [] => aff_id
+  | [] => aff_id_gen
   | [a] => a
-  | _ => fold_left concat2 l aff_id
+  | _ => fold_left concat2_gen l aff_id_gen
   end.
 
-Definition mul_aff3 (x y : f32) (a : aff3) : f32 * f32 :=
-  (a32 (a32 (m32 x (at_ a 0)) (m32 y (at_ a 1))) (at_ a 2),
-   a32 (a32 (m32 x (at_ a 3)) (m32 y (at_ a 4))) (at_ a 5)).
+Definition mul_aff3_gen (x y : T) (a : list T) : T * T :=
+  let add := o_add O in let mul := o_mul O in let at_ := at_gen in
+  (add (add (mul x (at_ a 0)) (mul y (at_ a 1))) (at_ a 2),
+   add (add (mul x (at_ a 3)) (mul y (at_ a 4))) (at_ a 5))%nat.
+End Affine.
+
+Definition at_ (a : aff3) (i : nat) : f32 := at_gen G32 a i.
+Definition concat2 : aff3 -> aff3 -> aff3 := concat2_gen G32.
+Definition concat : list aff3 -> aff3 := concat_gen G32.
+Definition mul_aff3 : f32 -> f32 -> aff3 -> f32 * f32 := mul_aff3_gen G32.
 
 Inductive generr := GTooManyStops | GCSelUsed.
 
@@ -56,22 +82,7 @@ Definition set_gradient (csel nsel : Z) (shape spread : Z) (stops : list genstop
            ++ flat_map (fun s => [CSetCReg 0 true (CRGBA (gs_color s)); CSetNReg 0 true (gs_offset s)]) stops
            ++ [CSetCSel csel; CSetNSel nsel]).
 
-Definition neg32 := fneg F32.
-
-(* the three geometry helpers, written once over an abstract numeric type:
-   float32 instance (compared with generate.go) and R instance (proofs/GradGeomR.v) *)
-Record genops (T : Type) := mkGenOps {
-  o_add : T -> T -> T; o_sub : T -> T -> T; o_mul : T -> T -> T; o_div : T -> T -> T; o_neg : T -> T;
-  o_zero : T; o_one : T;
-  o_invsqrt : T -> T        (* float32(1 / math.Sqrt(float64(x))) *)
-}.
-Arguments o_add {T}. Arguments o_sub {T}. Arguments o_mul {T}. Arguments o_div {T}. Arguments o_neg {T}.
-Arguments o_zero {T}. Arguments o_one {T}. Arguments o_invsqrt {T}.
-
-Definition G32 : genops f32 :=
-  mkGenOps f32 a32 s32 m32 d32 neg32 k0 k1
-           (fun r2 => f64_to_f32 (fdiv F64 (of_Z F64 1) (fsqrt F64 (f32_to_f64 r2)))).
-
+(* the three geometry helpers, written once over the abstract numeric type *)
 Section Matrices.
 Context {T : Type} (O : genops T).
 Definition linear_matrix_gen (x1 y1 x2 y2 : T) : list T :=
